@@ -296,6 +296,7 @@ def run(ctx, rep):
     full_transfer_rule(P, rep)
     sticky_failure_rule(P, rep)
     errno_class_rule(P, rep, 'R-C08-10')
+    writer_error_scan_rule(P, rep, 'R-C08-1w')
     from .C15 import dirty_bit_rule
     dirty_bit_rule(P, rep, 'R-C08-9', 'state_scrub_process', {'info_set'})
 
@@ -618,3 +619,40 @@ def errno_class_rule(P, rep, rid):
         rep.check(not offenders, rid, '%s (errno tested by %s)' % (base(name), ', '.join(who)), (offenders[0][0] if offenders else F.blocks[0][0]).loc(),
                   '%d i/o calls; every later call on a path to a return preserves errno' % len(ios) if not offenders else 'after the i/o call, %s is called (line %s) and does not preserve errno: when it fails itself (log on a full file-system) the caller sees its errno instead of EIO, counts a generic error and does not mark the stripe bad' % (offenders[0][1], offenders[0][0].line),
                   function=base(name), construct='errno preserved until the caller tests it')
+
+
+def writer_error_scan_rule(P, rep, rid):
+    """io_write_next reports the errors of the parity writers in an array indexed by error KIND (IO_WRITER_ERROR_MAX entries).  The
+    loop of the engine that reads it must visit every entry: bounded by anything smaller (the number of parity levels, say), the kinds
+    behind the bound -- a parity write failing with ENOSPC -- are never looked at and sync ends "Everything OK"."""
+    import re
+    f = P.fn('state_sync_process')
+    rep.analysed(f)
+    rep.rule(rid, 'state_sync_process: the loop over the writer error array visits all its entries (bound = length of the array)', 1)
+    wn = [c for c in f.calls() if c.callee == 'io_write_next' or (c.callee is None and c.target and f.expr(c.target) == 'io_write_next')]
+    arr = [a for a in f.all_insts() if a.op == 'alloca' and a.id not in f.arg_allocas() and any(any(f.strip(o) == ['i', a.id] or (f.inst_of(o) is not None and f.inst_of(o).op == 'getelementptr' and f.strip(f.inst_of(o).ops[0]) == ['i', a.id]) for o in c.ops) for c in wn)]
+    arr = [a for a in arr if re.match(r'\[(\d+) x i32\]', a.ty or '')]
+    if len(arr) != 1:
+        raise AnalysisBroken('state_sync_process: writer error array not found')
+    n = int(re.match(r'\[(\d+) x', arr[0].ty).group(1))
+    # loops whose body reads arr[counter]
+    from .C17 import _icmp
+    checked = 0
+    for h, body in f.loops.items():
+        reads = [i for i in f.all_insts() if i.block in body and i.op == 'getelementptr' and f.strip(i.ops[0]) == ['i', arr[0].id] and len(i.ops) == 3 and f.const_of(i.ops[2]) is None]
+        if not reads or any(h2 != h and h2 in body and any(r.block in f.loops[h2] for r in reads) for h2 in f.loops):
+            continue
+        t = f.term(h)
+        ci = f.inst_of(t.ops[0]) if t.op == 'br' and len(t.ops) == 3 else None
+        if ci is None or ci.op != 'icmp':
+            continue
+        checked += 1
+        k = f.const_of(ci.ops[1])
+        if k is None:
+            rep.check(False, rid, 'bound of the loop over the writer errors', t.loc(), 'the loop is bounded by %s, not by the length %d of the array: error kinds behind that bound are never examined (with 1-3 parity levels a parity write failing with ENOSPC is ignored and sync exits 0)' % (f.xexpr(ci.ops[1]), n), function='state_sync_process', construct='writer error loop bound')
+            continue
+        stay_true = t.ops[2][1] in body or t.ops[2][1] == h
+        visited = [v for v in range(0, n + 3) if _icmp(ci.pred, v, k) == stay_true]
+        rep.check(visited == list(range(n)), rid, 'bound of the loop over the writer errors', t.loc(), 'visits entries %s of %d' % (visited, n), function='state_sync_process', construct='writer error loop bound')
+    if not checked:
+        raise AnalysisBroken('state_sync_process: loop over the writer error array not found')
